@@ -43,8 +43,8 @@ def rand_sel(rng, info, depth=2, want=None, items=True):
             cur = None
             break
         else:
-            a = rng.choice([0, 0, 1, None])
-            b = rng.choice([1, 2, 3, None])
+            a = rng.choice([0, 0, 1, None, None, 2, -1])
+            b = rng.choice([1, 2, 3, None, 0, 0, -1])
             s = ("slice", s, a, b)
             cur = None
             break
